@@ -27,6 +27,15 @@ example : ¬ SameMembers [(nm "A", 1), (nm "B", 2)] [(nm "A", 1)] := by decide +
 example : SameMembers [(nm "A", 1), (nm "B", 2)] [(nm "B", 2), (nm "A", 1)] := by decide +kernel
 example : ¬ TheOnly [((1 : Nat), (5 : Int), (0 : Int)), (2, 5, 0)] (fun _ => True) := by decide +kernel
 
+/-- The relation for paths keyed by number: an alias is covered by the first name of its number; a name the C++
+enumeration lacks, another number for a name, or an unreached number are not. -/
+example : CoversByValue [(nm "A", 1), (nm "B", 1), (nm "C", 2)] [(nm "A", 1), (nm "C", 2)] := by decide +kernel
+example : ¬ CoversByValue [(nm "A", 1), (nm "C", 2)] [(nm "A", 1)] := by decide +kernel
+example : ¬ CoversByValue [(nm "A", 1)] [(nm "A", 1), (nm "D", 1)] := by decide +kernel
+example : ¬ CoversByValue [(nm "A", 1), (nm "C", 2)] [(nm "A", 2), (nm "C", 2)] := by decide +kernel
+/-- `ViewAgrees` is not vacuous: a view in which `GearType.FORWARD` answers 0 is rejected, whatever the other tables are. -/
+example : ¬ ViewAgrees false [(nm "GearType", [(nm "FORWARD", 0)])] (same "GearType") := by decide +kernel
+
 /-! ### one theorem per enumeration pair -/
 
 theorem C03_enum_ConfigType : PairAgrees (same "ConfigType") := by decide +kernel
@@ -116,6 +125,27 @@ theorem C03_enums_agree : ∀ p ∈ enumPairs, PairAgrees p := by
   · exact C03_enum_FrequencyBand
   · exact C03_enum_CalibrationStage
   · exact C03_enum_ros_CovarianceType
+
+/-- **Every access path gives the C++ number, whatever was asked before.** In each recorded order of asking the
+enumerations (forward, reverse; one fresh interpreter each, every enumeration asked for every name and number that any
+enumeration defines) and through each access path (`E.NAME`, `E.__members__`, `E['NAME']`, `E('NAME')`,
+`E.from_string('NAME')`, the lower- and mixed-case spellings the class accepts, `E(number)`, `E[number]`, iteration,
+`reversed`, the `raise_on_unrecognized=False` forms), the table name -> number of every paired Python enumeration is
+the C++ enumeration's table (sentinels removed; for the paths keyed by number: every entry is a C++ (name, number)
+and every C++ number is reached). -/
+theorem C03_every_access_path_agrees :
+    ∀ v ∈ Py.accessViews, ∀ p ∈ enumPairs, ViewAgrees v.2.2.1 v.2.2.2 p := by decide +kernel
+
+/-- The table of access paths is not a smaller one: both required orders occur with every required path, and every
+view lists exactly the enumerations of `Py.enums`. -/
+theorem C03_access_paths_covered :
+    (∀ o ∈ requiredOrders, ∀ a ∈ requiredPaths, ∃ v ∈ Py.accessViews, v.1 = o ∧ v.2.1 = a) ∧
+    (∀ v ∈ Py.accessViews, v.2.2.2.map (·.1) = Py.enums.map (·.1)) := by decide +kernel
+
+/-- **No name resolves outside its enumeration.** In the same sweeps every enumeration was also asked for the names and
+numbers that only OTHER enumerations define; none of those look-ups returned a value: through no path does a Python
+enumeration have a named value that its table (and hence, by the theorems above, the C++ enumeration) lacks. -/
+theorem C03_no_name_resolves_outside_its_enumeration : Py.accessExtraNames = [] := by decide +kernel
 
 /-- Every name excused as a sentinel exists on its side; a C++ sentinel is an alias (its value is also the value of a
 non-sentinel enumerator, so no wire value is excused); a Python sentinel lies above every C++ value of the enumeration. -/
